@@ -154,7 +154,7 @@ theorem AdvKeep.handleCmd {s : Sys} (i : Wid) (c : Cmd) (hok : ∀ p fn, c ≠ .
     simp only [handleCmdWith]
     split
     · exact AdvKeep.refl _
-    · simp only [setWk_wk, upd_same]
+    · simp only [noteExit_wk, setWk_wk, upd_same]
       refine AdvKeep.updProc (q := p) (y' := Proc.fresh fn (p :: regs)) (by simp [WorkerSt.setProc]) ?_
       intro y hy; rw [hfresh p fn regs rfl] at hy; cases hy
   | notifySpawn caller newPid =>
@@ -186,7 +186,7 @@ theorem AdvKeep.handleCmd {s : Sys} (i : Wid) (c : Cmd) (hok : ∀ p fn, c ≠ .
     repeat' split
     all_goals first
       | exact AdvKeep.refl _
-      | (simp only [setWk_wk, upd_same]; exact AdvKeep.of_procs rfl)
+      | (simp only [noteExit_wk, setWk_wk, upd_same]; exact AdvKeep.of_procs rfl)
 
 /-- an executor step: processes advance, and a new SpawnAction comes from a process that issues now -/
 def ExecAdv (s s' : Sys) (i : Wid) : Prop :=
@@ -203,16 +203,16 @@ theorem exec_adv (s : Sys) (i : Wid) (fuel : Nat) (ordQ : List Pid) : ExecAdv s 
   generalize (s.wk i).checkExpired s.prog s.now ordQ = w0 at hp0 ⊢
   have h0 : AdvKeep (s.wk i) w0 := AdvKeep.of_procs hp0
   split
-  · exact ⟨by simp only [setWk_wk, upd_same]; exact h0, fun e he => Or.inl he⟩
+  · exact ⟨by simp only [noteExit_wk, setWk_wk, upd_same]; exact h0, fun e he => Or.inl he⟩
   · rename_i cur rest _
     have h1 : AdvKeep (s.wk i) { w0 with queue := rest } := h0.trans (AdvKeep.of_procs rfl)
     split
-    · exact ⟨by simp only [setWk_wk, upd_same]; exact h1, fun e he => Or.inl he⟩
+    · exact ⟨by simp only [noteExit_wk, setWk_wk, upd_same]; exact h1, fun e he => Or.inl he⟩
     · rename_i x hx
       have hxs : (s.wk i).procs cur = some x := by rw [← hp0]; exact hx
       split
-      · refine ⟨?_, fun e he => Or.inl he⟩
-        simp only [setWk_wk, upd_same]
+      · refine ⟨?_, fun e he => (mem_noteExit_cases he).imp id (fun h => Or.inl (by subst h; intros; simp))⟩
+        simp only [noteExit_wk, setWk_wk, upd_same]
         exact h1.trans (AdvKeep.finish _ cur x ordQ (fun y hy => by rw [hx] at hy; cases hy; exact Adv.refl _))
       · have hsl := slice_adv s.prog s.now cur fuel x
         generalize slice s.prog s.now cur fuel x = r at hsl
@@ -231,8 +231,8 @@ theorem exec_adv (s : Sys) (i : Wid) (fuel : Nat) (ordQ : List Pid) : ExecAdv s 
           · exact Or.inl h
           · exact Or.inr h
         cases out with
-        | cont => exact ⟨by simp only [setWk_wk, upd_same]; exact h2 _ _ _, fun e he => Or.inl he⟩
-        | blocked => exact ⟨by simp only [setWk_wk, upd_same]; exact h2 _ _ _, fun e he => Or.inl he⟩
+        | cont => exact ⟨by simp only [noteExit_wk, setWk_wk, upd_same]; exact h2 _ _ _, fun e he => Or.inl he⟩
+        | blocked => exact ⟨by simp only [noteExit_wk, setWk_wk, upd_same]; exact h2 _ _ _, fun e he => Or.inl he⟩
         | send t m =>
           refine ⟨by simp only [pushEvt_wk, setWk_wk, upd_same]; exact h2 _ _ _, fun e he => ?_⟩
           rcases hpush _ e he with h | h
@@ -254,12 +254,12 @@ theorem exec_adv (s : Sys) (i : Wid) (fuel : Nat) (ordQ : List Pid) : ExecAdv s 
             · exact Nat.le_of_lt h
             · exact Nat.le_of_eq h.symm
         | failed =>
-          refine ⟨?_, fun e he => Or.inl he⟩
-          simp only [setWk_wk, upd_same]
+          refine ⟨?_, fun e he => (mem_noteExit_cases he).imp id (fun h => Or.inl (by subst h; intros; simp))⟩
+          simp only [noteExit_wk, setWk_wk, upd_same]
           exact (h2 rest w0.spawning w0.selecting).trans (AdvKeep.finish _ cur x' ordQ (fun y hy => by simp at hy; subst hy; exact Adv.refl _))
         | done =>
-          refine ⟨?_, fun e he => Or.inl he⟩
-          simp only [setWk_wk, upd_same]
+          refine ⟨?_, fun e he => (mem_noteExit_cases he).imp id (fun h => Or.inl (by subst h; intros; simp))⟩
+          simp only [noteExit_wk, setWk_wk, upd_same]
           exact (h2 rest w0.spawning w0.selecting).trans (AdvKeep.finish _ cur x' ordQ (fun y hy => by simp at hy; subst hy; exact Adv.refl _))
 
 theorem adv_micro {s : Sys} (h : SInv s) (m : Micro) : ∀ w, AdvKeep (s.wk w) ((microStep Rules.current s m).wk w) := by
@@ -350,6 +350,7 @@ theorem envStep1_evtQ (combine) (s : Sys) (w0 : Wid) (e : Evt) (rest : List Evt)
     repeat' split
     all_goals rfl
   | resultResp req r => rfl
+  | exited p => rfl
 
 /-- the caller of a SpawnAction in flight is a process at the spawn action for that script -/
 theorem spawn_evt_caller {ρ : Nat → Nat → Nat} {ar : Nat → Nat} {σ : Nat → List (Nat × Nat)} {s : Sys} (hk : KInv ρ ar σ s)
